@@ -165,7 +165,15 @@ def worker_main(argv):
         from . import compat
 
         compat.install(shard.get("jit_mode"))
+        from . import contracts
+
+        if not getattr(mod, "NO_CONTRACTS", False):
+            contracts.attach()
         mod.run_shard(shard, rec)
+        for k, n in contracts.EVALUATIONS.items():
+            rec.count("contract:" + k, n)
+        for v in contracts.VIOLATIONS:
+            rec.violation("contract:" + v["contract"], v["detail"], v)
     except BaseException as e:  # harness / import failure: inconclusive, never a verdict
         rec.inconclusive_(f"worker exception {type(e).__name__}: {e}\n{traceback.format_exc()[-1500:]}")
     res = rec.result(time.time() - t0)
